@@ -1,4 +1,5 @@
 import NbioVerif.Lemmas.DeadlineSteps
+import NbioVerif.Lemmas.DeadlineSpecAgree
 /-!
 # C16 — deadlines fire on time, never early, can be renewed or cleared; no stale timer
 
@@ -12,6 +13,22 @@ Go timer semantics (`time.AfterFunc`, `Reset`, `Stop`) are *modelled* (see the m
 namespace Deadline
 
 /-! ## the property theorems -/
+
+/-- **The model's "deadline in force" is the property's.** `specRun` (Model/DeadlineSpec.lean) computes the deadline
+    in force from the operation list alone, in the property's words (set/renew, clear, a write or flush that empties
+    the backlog, close), knowing nothing of timer handles, runtime timers or callbacks. For every history in which no
+    timer has closed the connection, the model's ghost field `f` — written by the same helpers as the code-level
+    fields — coincides with it (as do clock, `closed` and, while open, the backlog). So the "in force" the other
+    theorems speak about is not an artefact of the helpers. -/
+theorem c16_force_is_spec (ops : List Op) :
+    let s := run fixed init ops
+    let t := specRun {} ops
+    (∀ d, s.cause ≠ some (.timeout d)) →
+      (s.t .r).f = t.fr ∧ (s.t .w).f = t.fw ∧ s.closed = t.closed ∧ s.now = t.now ∧
+        (s.closed = false → s.backlog = t.backlog) := by
+  intro s t hnt
+  have h := agree_run ops init {} inv_init agree_init hnt
+  exact ⟨h.fr, h.fw, h.closed, h.now, h.backlog⟩
 
 /-- **Never early, and only for the deadline in force.** Whatever the interleaving of Set*Deadline calls, writes,
     flushes, closes, ticks, timer firings and callbacks: if the connection was closed with the read (write) timeout
@@ -304,6 +321,8 @@ example :
 
 /-- a read deadline that is not renewed closes with the read-timeout error at its tick -/
 example : (run fixed init [.set .r 5, .tick 5, .fire .r, .cb 0]).cause = some (.timeout .r) := by decide
+/-- the independent fold on the defect-#20 history: after the draining flush no write deadline is in force -/
+example : (specRun {} [.set .w 10, .write .short, .flush .full, .tick 10]).fw = none := by decide
 /-- it cannot fire a tick earlier (`fire` is skipped as disabled) -/
 example : (run fixed init [.set .r 5, .tick 4, .fire .r, .cb 0]).closed = false := by decide
 /-- renewal before expiry postpones; the renewed deadline then fires -/
